@@ -16,8 +16,11 @@ from props import cons as C
 from props import textcmp as T
 
 NAMES = ['f0', 'a b', 'é', 'F_3', 'x.y', 'sep name', 'nel\x85x', 'quote"q', 'back\\slash', '雪', 'tab\tname',
-         '#items', '# of rows', 'cafe\u0301s', 'Zoe\u0308', '\u2126 ohm', 'caf\u00e9s']
-REXES = [r'^[a-z]+$', r'^\d{4}-\d\d$', r'^a\\b$', r'^"q"$', r'^.*$', r"^it's$", r'^\S+\s\S+$', '^é+$']
+         '#items', '# of rows', 'cafe\u0301s', 'Zoe\u0308', '\u2126 ohm', 'caf\u00e9s', 'x,]', 'k, }', '{"q": 1,}']
+REXES = [r'^[a-z]+$', r'^\d{4}-\d\d$', r'^a\\b$', r'^"q"$', r'^.*$', r"^it's$", r'^\S+\s\S+$', '^é+$',
+         # text that looks like JSON structure inside a string
+         r'^[A-Z]{2,}$', r'^[0-9,]+$', r'^\{"k": \[1, \]\}$', r'^a, }$', r'^//x$', r'^/\* c \*/$', r'^\u0041$']
+LOOKALIKES = ['a,]', '{a, }', '[1,\n]', '": "', 'x //', '/* y */', 'null', 'true', '{"fields": {}}', ',', ', ]']
 
 
 def gen_value(rng, t):
@@ -235,6 +238,39 @@ def run(ctx):
                 text = t2
             if not ok:
                 continue
+            # ---- the loaded object after it has been serialised and verified with: a constraint edited in place on the
+            # object is what is then written (the set that is written is the set as it is now)
+            try:
+                before = c1.to_json()
+                if True:
+                    edited = json.loads(before)
+                    changed = False
+                    for nm in list(c1.fields.keys()):
+                        fc_ = c1.fields[nm]
+                        for k in ('max_nulls', 'min_length', 'max_length'):
+                            if k in fc_.constraints and isinstance(fc_.constraints[k].value, int) and rng.random() < 0.7:
+                                fc_.constraints[k].value = fc_.constraints[k].value + 41
+                                edited['fields'][nm][k] = edited['fields'][nm][k] + 41
+                                changed = True
+                        for k in ('min', 'max'):
+                            cobj = fc_.constraints.get(k)
+                            if cobj is not None and type(cobj.value) is int and rng.random() < 0.7:
+                                cobj.value = cobj.value - 13
+                                if isinstance(edited['fields'][nm][k], dict):
+                                    edited['fields'][nm][k]['value'] -= 13
+                                else:
+                                    edited['fields'][nm][k] -= 13
+                                changed = True
+                    if changed:
+                        ctx.bump('edited_in_place')
+                        got_t = c1.to_json()
+                        want_t = json.dumps(edited, indent=4, ensure_ascii=False)
+                        want_t = '\n'.join(l.rstrip() for l in want_t.splitlines()) + '\n'
+                        if json.loads(got_t) != edited:
+                            ctx.fail(case, 'a constraint edited in place on the loaded object is not what the object then writes: %r, '
+                                     'expected %r' % (first_diff(got_t, want_t), first_diff(want_t, got_t)))
+            except Exception as e:
+                ctx.fail(case, 'using the loaded object after serialising it raised %s: %s' % (type(e).__name__, str(e)[:200]))
             # ---- unknown kinds / comments ignored; only-unknown fields vanish
             clean = load_from({'fields': fields}).to_json()
             if strip_meta(clean) != strip_meta(t1):
